@@ -13,8 +13,13 @@ Model of /repo/src/euclidicity.rs and of the orbifold-graph part of /repo/src/de
   `simplify` has no model (C16; deterministic only up to isomorphism, DESIGN §5.9), so the facts
   behind it are not computed here.
 * `bad_subgroup_invariants`, `bad_subgroup_count`, `bad_connected_components` are private and
-  reached only behind `simplify`: they are restated as compositions of the existing models for
-  the record but are NOT tied to the code by the correspondence (no observable).
+  reached only behind `simplify`; they are compositions of the models of C12 (`coset_tables`), C13
+  (`stabilizer`), C14 (`abelian_invariants`), C09 (`fundamental_group`) and are tied to the code
+  through the cfg-guarded hooks `euclidicity::verif_hooks` (ops `bsc`, `bsi`, `bcc` of the C17
+  harness: exact comparison on presentations / symbols chosen so that every outcome occurs).
+* The numeric constants of the cascade and the kinds of its exits are written by hand below
+  (`countArgs` … `exitsInSourceOrder`); Props/C17 `cascade_skeleton_matches_source` proves them equal
+  to what tools/extract_tables.py regenerates from src/euclidicity.rs on every run.
 -/
 import DSymVerif.Model.Delaney3d
 import DSymVerif.Model.Partition
@@ -352,7 +357,29 @@ def isEuclideanPrefix (s : DSymData) : Outcome (Option Verdict × Option DSymDat
   | .err => .err
   | .panic => .panic
 
-/-! ### the private subgroup tests (compositions; not observable, see the header) -/
+/-! ### the skeleton of the cascade, by hand (compared with the regenerated one in Props/C17) -/
+
+/-- `bad_subgroup_count(&fg, 2, 8)` in `is_euclidean`: (index, expected) -/
+def countArgs : Nat × Nat := (2, 8)
+/-- `bad_subgroup_invariants(&fg, 2, vec![0, 0, 0])` in `is_euclidean`: (index, expected) -/
+def subgroupArgs : Nat × List Nat := (2, [0, 0, 0])
+/-- `invars != [0, 0, 0]` in `is_euclidean` -/
+def homologyTest : List Nat := [0, 0, 0]
+/-- `bad_connected_components`: (`invars == …`, index, expected) of its two tests, in source order -/
+def componentTests : List (List Nat × Nat × List Nat) := [([0, 0, 0], 2, [0, 0, 0]), ([], 5, [])]
+
+/-- the exits of `is_euclidean` in SOURCE order (not in the order of evaluation) -/
+def exitsInSourceOrder : List Verdict :=
+  [ .no .invariants, .yes, .no .connectedSum, .maybe .connectedSum, .no .handle, .no .freeGroup,
+    .no .subgroupCount, .no .subgroups, .maybe .noDecision, .no .lensSpace, .no .noCover ]
+
+/-- `fail(..)` / `give_up(..)` / `Euclidean::Yes` -/
+def Verdict.kind : Verdict → String
+  | .yes => "yes"
+  | .no _ => "fail"
+  | .maybe _ => "give_up"
+
+/-! ### the private subgroup tests (observable through `euclidicity::verif_hooks`) -/
 
 /-- `bad_subgroup_invariants(fg, index, expected)` -/
 def badSubgroupInvariants (fg : FG.FundGroup) (index : Nat) (expected : List Nat) : Outcome Bool :=
@@ -411,5 +438,43 @@ def badConnectedComponents (s : DSymData) : Outcome Bool :=
       | .err => .err
       | .panic => .panic
   go (s.view.orbitReps s.view.indices s.view.elements) false
+
+/-- `bad_connected_components` with its constants as a parameter (`tests` = the two
+    (`invars == …`, index, expected) triples); Props/C17 `bad_connected_components_uses_constants`:
+    the model above is this one at `componentTests` -/
+def badConnectedComponentsWith (tests : List (List Nat × Nat × List Nat)) (s : DSymData) : Outcome Bool :=
+  match tests with
+  | [(z3, i2, e2), (triv, i5, e5)] =>
+    let rec go : List Nat → Bool → Outcome Bool
+      | [], _ => .ok false
+      | d :: rest, seenZ3 =>
+        match subsymbol s (List.range s.dim) d with
+        | .ok comp =>
+          (match FG.fundamentalGroup comp with
+           | .ok fg =>
+             (match Inv.abelianInvariants fg.genToEdge.length fg.relators with
+              | .ok invars =>
+                if invars = z3 then
+                  if seenZ3 then .ok true else
+                    (match badSubgroupInvariants fg i2 e2 with
+                     | .ok true => .ok true
+                     | .ok false => go rest true
+                     | .err => .err
+                     | .panic => .panic)
+                else if invars = triv then
+                  (match badSubgroupInvariants fg i5 e5 with
+                   | .ok true => .ok true
+                   | .ok false => go rest seenZ3
+                   | .err => .err
+                   | .panic => .panic)
+                else .ok true
+              | .err => .err
+              | .panic => .panic)
+           | .err => .err
+           | .panic => .panic)
+        | .err => .err
+        | .panic => .panic
+    go (s.view.orbitReps s.view.indices s.view.elements) false
+  | _ => .err
 
 end DSymVerif.Euc
